@@ -32,7 +32,7 @@ def deliver_case(draw, broker):
     msgs = []
     for i in range(n):
         cls, us = draw(DELTA)
-        forms = ["net", "net", "until", "job"] + (["by"] if cls != "past" else []) + (["jobby"] if cls in ("seconds", "far") else [])
+        forms = ["net", "net", "until", "job", "netby"] + (["by"] if cls != "past" else []) + (["jobby"] if cls in ("seconds", "far") else [])
         msgs.append({"id": f"d{i}", "cls": cls, "delta_us": us, "form": draw(st.sampled_from(forms)),
                      "at": draw(st.one_of(st.just(0.0), st.integers(0, 5_000_000).map(lambda u: u / 1e6))),
                      "prio": draw(st.sampled_from([0, 5, 5, 9]))})
@@ -86,7 +86,15 @@ async def _enqueue(env, conn, m, loop, record):
         record[m["id"]] = {"due": vclock.secs(params.timestamp + d), "enq": loop.time()}
         await b.enqueue(RoutingKey(topic="t0", queue="qd", priority=m["prio"], id_=m["id"]), "", params)
         return
-    if m["form"] == "net":
+    if m["form"] == "netby":
+        # a retried iteration of a recurring job: it carries its period *and* the time of the retry - the retry time is the due time,
+        # wherever the period grid happens to lie (a period of 1 s: grid earlier than a longer back-off; an hour: later)
+        from repid.data._parameters import RetriesProperties
+
+        per = timedelta(seconds=1 if m["delta_us"] % 2 else 3600)
+        params = Parameters(delay=DelayProperties(defer_by=per, next_execution_time=due), retries=RetriesProperties(max_amount=3, already_tried=1))
+        record[m["id"]] = {"due": vclock.secs(due), "enq": loop.time()}
+    elif m["form"] == "net":
         params = Parameters(delay=DelayProperties(next_execution_time=due))
         record[m["id"]] = {"due": vclock.secs(due), "enq": loop.time()}
     else:
@@ -233,7 +241,7 @@ def visible_case(draw, broker):
     cls, us = draw(st.one_of(st.tuples(st.just("seconds"), st.integers(2_000_000, 30_000_000)),
                              st.tuples(st.just("far"), st.sampled_from([3600, 86400 * 400]).map(lambda s: s * 1_000_000 + 5))))
     return {"broker": broker, "seed": draw(st.integers(0, 2**16)), "delta_us": us, "cls": cls, "tz": draw(st.sampled_from([None, None, *vclock.zones(us / 86400e6 + 3)])),
-            "form": draw(st.sampled_from(["net", "until", "job", "by", "jobby"])), "phase_us": draw(st.integers(0, 999_999)),
+            "form": draw(st.sampled_from(["net", "until", "job", "by", "jobby", "netby"])), "phase_us": draw(st.integers(0, 999_999)),
             "peek_at_us": draw(st.integers(0, 1_500_000)), "prio": draw(st.sampled_from([0, 5, 9])),
             "others": draw(st.integers(0, 2))}
 
